@@ -155,7 +155,9 @@ func (c02) Run(x *Exec, scn any) {
 	}
 	cfg := spec.Render()
 	var err error
-	pv, st := call(func() { err = log.Refresh(cfg) })
+	var pv any
+	var st string
+	x.do("refresh", func() { pv, st = call(func() { err = log.Refresh(cfg) }) })
 	if pv != nil {
 		o.violate("refresh-panic", "C02/refresh-panic/"+panicSite(st), "Refresh panicked: %v\n%v", pv, cfg)
 		return
@@ -168,7 +170,7 @@ func (c02) Run(x *Exec, scn any) {
 			kind := strings.Fields(wantErr)[0]
 			o.violate("error-expected", "C02/refresh-accepted-invalid-tags/"+kind, "Refresh must fail (%s) but succeeded; lists=%v root=%d", wantErr, s.Lists, s.Root)
 		}
-		call(log.Destroy)
+		x.do("destroy", func() { call(log.Destroy) })
 		return
 	}
 	if err != nil {
